@@ -105,6 +105,7 @@ var atomFuncs = map[string]string{
 	"strconv.FormatInt":                                     "INT",
 	"strconv.FormatFloat":                                   "CONST",
 	"(reflect.StructTag).Get":                               "USER",
+	"(*go/types.Struct).Tag":                                "TAGTEXT",
 	"(go/constant.Value).String":                            "CONST",
 	modPath + "/generator.Origin":                           "COMMENT",
 	modPath + "/generator.ReplaceEnums":                     "USER",
@@ -1389,7 +1390,6 @@ func (ev *tplEval) tableValues(t *pkgTableInfo) Sketch {
 	}
 	return Sketch{Alt{opts}}
 }
-
 
 // paramIndexDecl: the position of obj among the parameters of fd, -1 when it is not one.
 func paramIndexDecl(info *types.Info, fd *ast.FuncDecl, obj types.Object) int {
